@@ -10,7 +10,9 @@ import argparse, hashlib, json, os, queue, random, re, resource, shutil, signal,
 from . import spec, gen
 
 ROOT = os.path.dirname(os.path.dirname(os.path.abspath(__file__)))
-WORK = os.path.join(ROOT, '.work')
+WORK = os.environ.get('VERIF_WORK') or os.path.join(ROOT, '.work')
+# seeded-change evaluation only: a copy of the harness crate whose path dependency points at a patched scratch worktree
+HARNESS_OVERRIDE = os.environ.get('VERIF_HARNESS_DIR')
 KANI_ENV = {'CARGO_NET_OFFLINE': 'true', 'CARGO_TERM_COLOR': 'never'}
 NATIVE_TOOLCHAIN = 'stable'
 
@@ -41,7 +43,7 @@ def limit(mem_gb):
 
 
 def kani_cmd(h, target_dir, extra=()):
-    crate_dir = os.path.join(ROOT, h.crate)
+    crate_dir = HARNESS_OVERRIDE or os.path.join(ROOT, h.crate)
     cmd = ['cargo', 'kani', '--features', h.prop.lower(), '--harness', f"gen_{h.prop.lower()}::{h.name}", '--exact',
            '--target-dir', target_dir, '--no-assertion-reach-checks']
     if h.stub:
@@ -50,7 +52,7 @@ def kani_cmd(h, target_dir, extra=()):
     return cmd, crate_dir
 
 
-CHECK_RE = re.compile(r'^Check (\d+): (\S+)\n\t - Status: (\S+)\n\t - Description: "(.*)"\n(?:\t - Location: (.*)\n)?', re.M)
+CHECK_RE = re.compile(r'^Check (\d+): (.+)\n\t - Status: (\S+)\n\t - Description: "(.*)"\n(?:\t - Location: (.*)\n)?', re.M)
 
 
 def parse_log(txt):
@@ -117,7 +119,7 @@ def classify(h, p):
     if undet:
         return 'undecided', 'undetermined check ' + undet[0]['desc']
     if p['verdict'] != 'SUCCESSFUL':
-        return 'undecided', 'verdict ' + str(p['verdict'])
+        return ('failed', 'verdict FAILED (no individual failing check parsed)') if p['verdict'] == 'FAILED' else ('undecided', 'verdict ' + str(p['verdict']))
     vac = [c for c in reach if c['status'] != 'SATISFIED']
     if vac:
         return 'vacuous', 'reachability witness not satisfied: ' + vac[0]['desc'] + ' @ ' + vac[0]['loc']
@@ -195,7 +197,7 @@ def extract_playback(h, wdir, logdir):
 
 
 def native_replay(h, replay_path, profile, logdir):
-    crate_dir = os.path.join(ROOT, h.crate)
+    crate_dir = HARNESS_OVERRIDE or os.path.join(ROOT, h.crate)
     env = dict(os.environ)
     env.update(KANI_ENV)
     env['RUSTUP_TOOLCHAIN'] = NATIVE_TOOLCHAIN
@@ -270,8 +272,9 @@ def main(argv=None):
     prop = a.prop.upper()
     seed = int(os.environ.get('VERIF_SEED', '0') or 0)
     t0 = time.time()
-    gen.render('harness')
-    gen.render_lib('harness')
+    if not HARNESS_OVERRIDE:
+        gen.render('harness')
+        gen.render_lib('harness')
     os.makedirs(WORK, exist_ok=True)
     logdir = os.path.join(WORK, 'logs', prop)
     os.makedirs(logdir, exist_ok=True)
